@@ -32,11 +32,21 @@ def run(chk, gate, status):
     gens = make_cases(chk)
     chk.assumptions += ['observers rounded to display precision are compared within half a unit of the last displayed digit']
     cov = histcheck.run(chk, gens, oracles.c10, 'C10', RULE, nontrivial)
+    for msg in oracles.wv_runtime_probe()[:2]:
+        cov['oracle_failures'] += 1
+        chk.violation(msg, {'kind': 'wv-runtime'})
     # under other configurations (separate processes): the cached volume against the contents, from the dumps
     cov['operations_under_configuration_variants'] = histcheck.variants(chk, gens, oracles.c10, 'C10v', limit=10 if chk.tier == 'quick' else 60)
     return cov
 
 
 def replay(path):
+    import json as _json
+    if _json.load(open(path)).get('kind') == 'wv-runtime':
+        f = oracles.wv_runtime_probe()
+        for m in f:
+            print('PROPERTY FAILS:', m)
+        print('property', 'FAILS' if f else 'HOLDS', 'on this input')
+        return 1 if f else 0
     dsl.OBSERVE_EACH = True
     return histcheck.replay(path, oracles.c10)
